@@ -60,7 +60,14 @@ func (conn *Conn) close() {
 
 	/* call FidDestroy for all remaining fids */
 	if op, ok := (conn.Srv.ops).(SrvFidOps); ok {
+		/* requests still in flight add and remove fids under the lock */
+		conn.Lock()
+		fids := make([]*SrvFid, 0, len(conn.fidpool))
 		for _, fid := range conn.fidpool {
+			fids = append(fids, fid)
+		}
+		conn.Unlock()
+		for _, fid := range fids {
 			if !fid.destroyOnce() {
 				continue
 			}
